@@ -178,3 +178,165 @@ Theorem C08_constructor_roundtrip :
                into_sem conv di s = Some (pack args) /\ s = args.
 Proof. exact Proofs.constructor_roundtrip. Qed.
 Print Assumptions C08_constructor_roundtrip.
+
+(* ------------------------------------------------------------------ growth round *)
+
+Theorem C08_validate_diag_iff :
+  forall n t, validate_type n t = None <-> validate_diag n t <> None.
+Proof. exact Proofs.validate_diag_none_iff. Qed.
+Print Assumptions C08_validate_diag_iff.
+
+Theorem C08_validate_diag_cases :
+  forall n t d,
+  validate_diag n t = Some d ->
+  match d with
+  | DAddMore e f => e = n /\ 2 <= n /\ f < n /\ exists l, t = TTuple l /\ length l = f
+  | DRemoveLast e f => e = n /\ 2 <= n /\ n < f /\ exists l, t = TTuple l /\ length l = f
+  | DUnitForOne => n = 1 /\ t = TTuple []
+  | DExpectedTuple e => e = n /\ 2 <= n /\ forall l, t <> TTuple l
+  end.
+Proof. exact Proofs.validate_diag_cases. Qed.
+Print Assumptions C08_validate_diag_cases.
+
+Theorem C08_from_err_iff :
+  forall it,
+  from_expand it = RErr <->
+  (match it with
+   | IStruct attrs _ => parse_attrs parse_struct_attr None attrs = None
+   | IEnum vs => parse_all vs = None
+   end \/ from_diag it <> None).
+Proof. exact Proofs.from_err_iff. Qed.
+Print Assumptions C08_from_err_iff.
+
+Theorem C08_into_err_iff :
+  forall sattrs fields,
+  into_expand sattrs fields = None <->
+  (into_expansions sattrs fields = None \/ into_diag sattrs fields <> None).
+Proof. exact Proofs.into_err_iff. Qed.
+Print Assumptions C08_into_err_iff.
+
+Theorem C08_into_attr_mixing_rejected_iff :
+  forall l, parse_cattr l = None <-> (has_kind l = true /\ has_type l = true).
+Proof. exact Proofs.parse_cattr_rejects_iff. Qed.
+Print Assumptions C08_into_attr_mixing_rejected_iff.
+
+Theorem C08_into_attr_groups_accumulate :
+  forall l c,
+  parse_cattr l = Some c ->
+  forall k, c_tys (ca_get k c) = tys_of k l /\ c_consider (ca_get k c) = bare_of k l.
+Proof. exact Proofs.parse_cattr_spec. Qed.
+Print Assumptions C08_into_attr_groups_accumulate.
+
+Theorem C08_into_attrs_merge_is_concat :
+  forall l1 l2 c1 c2,
+  parse_cattr l1 = Some c1 -> parse_cattr l2 = Some c2 ->
+  forall k, c_tys (ca_get k (merge_cattr c1 c2)) = tys_of k (l1 ++ l2) /\
+            c_consider (ca_get k (merge_cattr c1 c2)) = bare_of k (l1 ++ l2).
+Proof. exact Proofs.merge_cattr_is_concat. Qed.
+Print Assumptions C08_into_attrs_merge_is_concat.
+
+Theorem C08_into_keyword_rule :
+  forall a,
+  (ra_pathsep a = true -> classify_arg a = CType (ra_ty a)) /\
+  (ra_pathsep a = false -> ra_head a = HOther -> classify_arg a = CType (ra_ty a)) /\
+  (ra_pathsep a = false -> ra_head a <> HOther -> exists k, classify_arg a = CKind k (ra_group a)).
+Proof. exact Proofs.classify_arg_spec. Qed.
+Print Assumptions C08_into_keyword_rule.
+
+Theorem C08_from_repeated_types_concat :
+  forall p l ls,
+  (forall x, In x (l :: ls) -> p (AArgs x) = Some (FTypes x)) ->
+  parse_attrs p None (map AArgs (l :: ls)) = Some (Some (FTypes (concat (l :: ls)))).
+Proof. exact Proofs.from_repeated_types_concat. Qed.
+Print Assumptions C08_from_repeated_types_concat.
+
+Theorem C08_from_two_attrs_need_types :
+  forall p a b r x,
+  parse_attrs p None (a :: b :: r) = Some x ->
+  (exists ta, p a = Some (FTypes ta)) /\ (exists tb, p b = Some (FTypes tb)).
+Proof. exact Proofs.from_two_attrs_need_types. Qed.
+Print Assumptions C08_from_two_attrs_need_types.
+
+Theorem C08_from_legacy_types_rejected :
+  forall l,
+  legacy_types l = true ->
+  parse_variant_attr (AArgs l) = None /\ parse_struct_attr (AArgs l) = None /\
+  (forall ftys, from_expand (IStruct [AArgs l] ftys) = RErr).
+Proof. exact Proofs.from_legacy_types_rejected. Qed.
+Print Assumptions C08_from_legacy_types_rejected.
+
+Theorem C08_from_documented_unless_known :
+  forall it ds d ftys from_tys,
+  from_expand it = ROk ds -> In d ds -> fields_of it d = Some ftys ->
+  validate_type (length ftys) (fd_src d) = Some from_tys ->
+  from_trace ftys d = combine (firstn (length ftys) from_tys) ftys ->
+  ~ known_split (length ftys) (fd_src d) ->
+  from_trace ftys d = combine (doc_comps (length ftys) (fd_src d)) ftys /\
+  (1 <= length ftys -> length (doc_comps (length ftys) (fd_src d)) = length ftys).
+Proof. exact Proofs.from_documented_unless_known. Qed.
+Print Assumptions C08_from_documented_unless_known.
+
+Theorem C08_from_known_split_refuted :
+  exists it d ftys,
+    from_expand it = ROk [d] /\ fields_of it d = Some ftys /\ known_split (length ftys) (fd_src d) /\
+    from_trace ftys d <> combine (doc_comps (length ftys) (fd_src d)) ftys.
+Proof. exact Proofs.from_known_split_refuted. Qed.
+Print Assumptions C08_from_known_split_refuted.
+
+Theorem C08_into_documented_unless_known :
+  forall sattrs fields ds d,
+  into_expand sattrs fields = Some ds -> In d ds ->
+  exists src out_ty,
+    validate_type (length src) out_ty = Some (id_tys d) /\ id_inits d = combine src (id_tys d) /\
+    (out_ty = TTuple (map snd src) -> id_tys d = map snd src /\ map fst (into_trace d) = src) /\
+    (~ known_split (length src) out_ty ->
+       id_tys d = doc_comps (length src) out_ty /\ map fst (into_trace d) = src).
+Proof. exact Proofs.into_documented_unless_known. Qed.
+Print Assumptions C08_into_documented_unless_known.
+
+Theorem C08_into_known_one_tuple_refuted :
+  exists sattrs fields d (src : list (nat * ty)) out_ty,
+    into_expand sattrs fields = Some [d] /\ validate_type (length src) out_ty = Some (id_tys d) /\
+    known_split (length src) out_ty /\ id_tys d <> doc_comps (length src) out_ty.
+Proof. exact Proofs.into_known_one_tuple_refuted. Qed.
+Print Assumptions C08_into_known_one_tuple_refuted.
+
+Theorem C08_into_known_split_refuted :
+  exists sattrs fields d (src : list (nat * ty)) out_ty,
+    into_expand sattrs fields = Some [d] /\ validate_type (length src) out_ty = Some (id_tys d) /\
+    known_split (length src) out_ty /\ length (id_tys d) <> length src /\ length (into_trace d) = 1.
+Proof. exact Proofs.into_known_split_refuted. Qed.
+Print Assumptions C08_into_known_split_refuted.
+
+Theorem C08_roundtrip_skips :
+  forall (conv : kind -> ty -> ty -> value -> value) (Hrefl : forall k t v, conv k t t v = v) fs cs,
+  length cs = length fs ->
+  from_expand (IStruct [] (map fst fs)) = ROk [direct_impl (map fst fs)] /\
+  into_expand [] (map mk_field fs) = Some [own_impl (kept fs) KOwned] /\
+  from_sem conv (map fst fs) (direct_impl (map fst fs)) (pack cs) = Some cs /\
+  into_sem conv (own_impl (kept fs) KOwned) cs = Some (pack (select (map snd fs) cs)) /\
+  into_sem conv (own_impl (kept fs) KRef) cs = Some (pack (map (fun e => VAddr false (fst e)) (kept fs))) /\
+  into_sem conv (own_impl (kept fs) KRefMut) cs = Some (pack (map (fun e => VAddr true (fst e)) (kept fs))).
+Proof. exact Proofs.roundtrip_skips. Qed.
+Print Assumptions C08_roundtrip_skips.
+
+Theorem C08_into_impl_set_iff :
+  forall sattrs fields ds,
+  into_expand sattrs fields = Some ds ->
+  exists sa fds,
+    parse_sattrs None sattrs = Some sa /\ parse_ifields 0 fields = Some fds /\
+    forall k cs,
+      In (k, cs) (map (fun d => (id_kind d, id_tys d)) ds) <->
+      exists e t, In e (into_requests sa fds) /\ In t (requested (fst e) (snd e) k) /\ cs = comps t.
+Proof. exact Proofs.into_impl_set_iff. Qed.
+Print Assumptions C08_into_impl_set_iff.
+
+Theorem C08_into_impl_count :
+  forall sattrs fields ds,
+  into_expand sattrs fields = Some ds ->
+  exists sa fds,
+    parse_sattrs None sattrs = Some sa /\ parse_ifields 0 fields = Some fds /\
+    length ds = length (flat_map (fun e => flat_map (fun k => requested (fst e) (snd e) k) kinds)
+                                 (into_requests sa fds)).
+Proof. exact Proofs.into_impl_count. Qed.
+Print Assumptions C08_into_impl_count.
